@@ -16,7 +16,7 @@ BUDGET = {"quick": 160, "thorough": 3000}
 EXHAUSTIVE = True
 PACK = 12
 RULE = ("exhaustive matrix of cells = kind (string, date, date-time, uuid, integer, number, boolean, str-enum, int-enum, const, "
-        "array of scalar, array of model, model ref, union of scalars, union with model, any) x required x nullable notation "
+        "array of scalar, array of model, model ref, union of scalars, union with model, any, three single-member unions) x required x nullable notation "
         "(none / 3.0 nullable / 3.1 type list / null union member / null enum member, where applicable) x default (none / valid) "
         "x position (model property, query, header, cookie parameter) x enum style x embedding (model cells: declared directly / in "
         "a model the generator processes twice / inherited from an allOf parent / declared untyped+required by a parent and refined "
@@ -43,9 +43,10 @@ def configure(live_ids, tier, opts):
 U1 = "12345678-1234-5678-1234-567812345678"
 SAMPLE = {"str": "x", "date": "2020-01-02", "datetime": "2020-01-02T03:04:05+00:00", "uuid": U1, "int": 5, "num": 1.5, "bool": True,
           "enum_str": "aa", "enum_int": 1, "const": "fixed", "array_str": ["a", "b"], "array_model": [{"a": "x"}], "model": {"a": "x"},
-          "union_scalar": 3, "union_model": {"a": "x"}, "any": {"k": 1}, "array_date": ["2020-01-02"]}
+          "union_scalar": 3, "union_model": {"a": "x"}, "any": {"k": 1}, "array_date": ["2020-01-02"],
+          "one_int": 5, "one_datetime": "2020-01-02T03:04:05+00:00", "one_typelist": "x"}
 FALSY = {"str": "", "int": 0, "num": 0.0, "bool": False, "array_str": [], "array_model": [], "array_date": [], "any": {},
-         "union_scalar": 0, "model": {}, "union_model": 0}
+         "union_scalar": 0, "model": {}, "union_model": 0, "one_int": 0, "one_typelist": ""}
 BASE = {
     "str": {"type": "string"}, "date": {"type": "string", "format": "date"}, "datetime": {"type": "string", "format": "date-time"},
     "uuid": {"type": "string", "format": "uuid"}, "int": {"type": "integer"}, "num": {"type": "number"}, "bool": {"type": "boolean"},
@@ -57,10 +58,14 @@ BASE = {
     "union_scalar": {"anyOf": [{"type": "integer"}, {"type": "string"}]},
     "union_model": {"anyOf": [{"$ref": "#/components/schemas/Leaf"}, {"type": "integer"}]},
     "any": {},
+    # unions with a single member (a composition keyword or a 3.1 type list holding one entry): the member's schema, nothing else
+    "one_int": {"anyOf": [{"type": "integer"}]}, "one_datetime": {"oneOf": [{"type": "string", "format": "date-time"}]},
+    "one_typelist": {"type": ["string"]},
 }
 TYPED = {"str", "date", "datetime", "uuid", "int", "num", "bool", "array_str", "array_date", "array_model"}
-DEFAULTABLE = {"str", "date", "datetime", "uuid", "int", "num", "bool", "enum_str", "enum_int", "const"}
-PARAM_OK = {"query": {"str", "date", "datetime", "uuid", "int", "num", "bool", "enum_str", "enum_int", "array_str", "union_scalar"},
+DEFAULTABLE = {"str", "date", "datetime", "uuid", "int", "num", "bool", "enum_str", "enum_int", "const", "one_int", "one_datetime", "one_typelist"}
+PARAM_OK = {"query": {"str", "date", "datetime", "uuid", "int", "num", "bool", "enum_str", "enum_int", "array_str", "union_scalar",
+                      "one_int", "one_datetime", "one_typelist"},
             "header": {"str", "int", "num", "bool", "enum_str", "enum_int"},
             "cookie": {"str", "enum_str", "int", "bool", "date"}}
 
@@ -101,7 +106,7 @@ def all_cells():
 
 
 def is_v31(cell):
-    return cell["nullable"] == "typelist"
+    return cell["nullable"] == "typelist" or cell["kind"] == "one_typelist"
 
 
 MODEL_EMBED = ("plain", "reparsed", "inherited", "refined", "promoted_elsewhere")
@@ -530,10 +535,55 @@ def _check_params(ctx, pkg, res, cells, op, embed, n_op):
         sent = (name in q) if loc == "query" else ((name.lower() in hm) if loc == "header" else (name in ck))
         if not sent:
             ctx.violation("present.falsy_transmitted", _site(c, embed, n_op), f"{name}={kwargs2[py]!r} was not sent")
+    # --- null for a nullable parameter: it has no wire form of its own, so it may be left out or refused - but it must not go out as a
+    # text that a present value of the same parameter could also be (None sent as the string "None")
+    for (loc, name), c in wire.items():
+        py = er.pynames.get((loc, name))
+        if c["nullable"] == "none" or py not in kwargs2:
+            continue
+        cap = http.Capture()
+        client = http.make_client(pkg, cap, secured=False)
+        ctx.evals()
+        try:
+            mod.sync_detailed(client=client, **{**kwargs2, py: None})
+        except BaseException as e:  # noqa: BLE001
+            if behave._is_ctl(e):
+                raise
+            ctx.label("null_argument_refused")
+            continue
+        finally:
+            http.close_client(client)
+        if not cap.requests:
+            continue
+        req = cap.requests[0]
+        texts = [v for k, v in req["query"] if k == name] if loc == "query" else (http.header_map(req).get(name.lower(), []) if loc == "header"
+                                                                                   else ([http.cookies_of(req)[name]] if name in http.cookies_of(req) else []))
+        ctx.label("null_argument_sent" if texts else "null_argument_left_out")
+        for t in texts:
+            if _could_be_present(c["kind"], t):
+                ctx.violation("null.distinct_from_present", _site(c, embed, n_op), f"None for {name} went out as {t!r}, which a present value could be")
+
+
+def _could_be_present(kind, text) -> bool:
+    if kind in ("str", "one_typelist"):
+        return text != ""      # an empty cookie / header value is read as "no value" here, not as the present string ""
+    if kind in ("int", "num", "one_int"):
+        try:
+            float(text)
+            return text.lower() not in ("nan", "inf", "-inf", "infinity")
+        except ValueError:
+            return False
+    if kind == "bool":
+        return text.lower() in ("true", "false")
+    if kind == "enum_str":
+        return text in ("aa", "bb")
+    if kind == "enum_int":
+        return text in ("1", "2")
+    return False
 
 
 def _ir(kind):
     return {"str": {"k": "str"}, "date": {"k": "date"}, "datetime": {"k": "datetime"}, "uuid": {"k": "uuid"}, "int": {"k": "int"},
             "num": {"k": "num"}, "bool": {"k": "bool"}, "enum_str": {"k": "enum", "base": "str", "values": ["aa", "bb"]},
             "enum_int": {"k": "enum", "base": "int", "values": [1, 2]}, "array_str": {"k": "array", "items": {"k": "str"}},
-            "union_scalar": {"k": "int"}}.get(kind, {"k": "any"})
+            "union_scalar": {"k": "int"}, "one_int": {"k": "int"}, "one_datetime": {"k": "datetime"}, "one_typelist": {"k": "str"}}.get(kind, {"k": "any"})
